@@ -457,3 +457,47 @@ Proof.
   destruct (is_slice_or_absent (abs_swamp x) k) eqn:E; [|discriminate].
   destruct (push_sim x k vals Hwf E) as [H1 H2]. rewrite H1 in *. apply IH; assumption.
 Qed.
+
+Lemma adel_aput {A} k (v : A) l : adel k (aput k v l) = adel k l.
+Proof.
+  induction l as [|[k' v'] t IH]; cbn; [rewrite Z.eqb_refl; reflexivity|].
+  destruct (k =? k') eqn:E; cbn; rewrite ?Z.eqb_refl, ?E; [reflexivity|]. f_equal. exact IH.
+Qed.
+
+Lemma sldel_pairs_sim : forall pairs x a,
+  wf_swamp x = true -> disc_sldel (abs_swamp x) pairs = 0 ->
+  let '(x', a', h) := sldel_pairs cfg_now x a pairs in
+  s_sldel_pairs (abs_swamp x) a pairs = (abs_swamp x', a') /\ wf_swamp x' = true.
+Proof.
+  induction pairs as [|[k vals] t IH]; intros x a Hwf D; cbn [sldel_pairs s_sldel_pairs disc_sldel] in *;
+    [split; [reflexivity|exact Hwf]|].
+  destruct (is_slice_or_absent (abs_swamp x) k) eqn:Es; [|discriminate].
+  destruct (wf_swamp_inv x Hwf) as [Hinfl Hall].
+  destruct (slice_or_absent_cases x k Hwf Es) as [E|(l & m & E)];
+    destruct x as [rs inf]; cbn [infl recs] in *; subst inf;
+    rewrite aget_abs_swamp in *; cbn [recs infl] in *; rewrite E in *; cbn [option_map] in *.
+  - cbn [fst] in D. apply IH; assumption.
+  - cbn [abs_rec s_val s_meta r_c r_meta sval_of c_void c_sc c_sl] in *.
+    unfold del_sl, save, ahas; cbn [r_c c_sl c_void c_sc r_meta r_dirty recs infl]. rewrite E.
+    destruct (filter (fun v => negb (zmem v vals)) l) as [|v0 keep] eqn:Ek.
+    + (* emptied: the record goes, and with the last record the swamp *)
+      cbn [r_dirty fst sl_size r_c c_sl length Z.of_nat Z.eqb c_hold cfg_now recs infl] in *.
+      rewrite adel_aput.
+      assert (Habs : abs_swamp {| recs := adel k rs; infl := [] |} = adel k (abs_swamp {| recs := rs; infl := [] |}))
+        by exact (abs_with_adel {| recs := rs; infl := [] |} k).
+      rewrite <- Habs in *.
+      replace (match abs_swamp {| recs := adel k rs; infl := [] |} with [] => false | _ => a end)
+        with (match adel k rs with [] => false | _ => a end)
+        by (unfold abs_swamp; cbn [recs]; symmetry; apply nil_match_abs).
+      apply IH; [apply wf_swamp_intro; [reflexivity|apply aall_adel; exact Hall] | exact D].
+    + (* values remain *)
+      cbn [r_dirty fst sl_size r_c c_sl clear_flags cfg_now c_sticky recs infl r_meta] in *.
+      assert (Hz : (Z.of_nat (length (v0 :: keep)) =? 0) = false) by (apply Z.eqb_neq; cbn [length]; lia).
+      rewrite Hz.
+      set (r1 := {| r_c := Some {| c_void := false; c_sc := None; c_sl := Some (v0 :: keep) |}; r_meta := m; r_dirty := false |}) in *.
+      assert (Habs : abs_swamp {| recs := aput k r1 rs; infl := [] |}
+                     = aput k {| s_val := SSl (v0 :: keep); s_meta := m |} (abs_swamp {| recs := rs; infl := [] |}))
+        by exact (aput_amap abs_rec k r1 rs).
+      rewrite <- Habs in *.
+      apply IH; [apply wf_swamp_intro; [reflexivity|apply aall_aput; [exact Hall|reflexivity]] | exact D].
+Qed.
